@@ -1108,6 +1108,9 @@ class Exec(object):
 
     def post(self, p, v, line):
         rt = self.c.result_type
+        if rt is not None and v.t == NONE and rt != NONE and rt.kind != 'opt':
+            # `return None` where a value is required: the contract says this path is infeasible
+            self.oblig(p, 'return-none-unreachable@%d' % line, 'safety', BoolVal(False), line); return
         if rt is not None: v = self.coerce(v, rt)
         saved_res, saved_mode = self.result, self.spec_mode
         self.result, self.spec_mode = v, True
